@@ -79,6 +79,15 @@ impl ReportError {
         &self.filename
     }
 
+    /// The call-site notes attached to this error: (label, template name, span)
+    #[cfg(tera_verif)]
+    pub fn verif_notes(&self) -> Vec<(String, String, Span)> {
+        self.notes
+            .iter()
+            .map(|n| (n.label.clone(), n.filename.clone(), n.span.clone()))
+            .collect()
+    }
+
     pub(crate) fn unexpected_end_of_input(span: &Span) -> Self {
         Self::new_without_source("Unexpected end of input".to_string(), span)
     }
